@@ -661,6 +661,9 @@ class DAGRunConcurrentManager(DAGRunManagerLike):
         to_unlock_descendants = True
 
         try:
+            # The node may have been started by another sub-DAG: then this call only waits for its result
+            is_started_elsewhere = self._node_storage.exists_processed_node(node_id)
+
             result = await self._execute_node(
                 force_default=force_default,
                 node_id=node_id,
@@ -687,7 +690,7 @@ class DAGRunConcurrentManager(DAGRunManagerLike):
 
             # TODO: Needs to reorganize saving policy for artifact storage
             # A Recurrent marker and a failure kept as a value inside a OneOf candidate are not results of the node
-            if not isinstance(result, (Recurrent, BaseException)):
+            if not is_started_elsewhere and not isinstance(result, (Recurrent, BaseException)):
                 await self.ctx.save_node_result(node_id, result)
 
         finally:
